@@ -9,6 +9,7 @@ from .. import rfa_common as R
 from ..core import frac, floats
 
 ID = "C05"
+THREADS = True       # part of the cases run concurrently in threads of one interpreter (the schedule dimension)
 MODULES = ["TWV.Properties.RfaImp", "TWV.Tie.RfaLoops", "TWV.Properties.C05", "TWV.Properties.C05Run", "TWV.Tie.Funfit"]
 TRANSLATORS = ["t4_rfaloops", "t1_funfit"]
 RULE = ("random cases over the four window strategies (70%) and pc / cubic (30%): series with many ties between neighbouring "
